@@ -352,6 +352,19 @@ func (m *Machine) loadSymIdx(l *Loc, idx *sym.Term) Value {
 	if n == 0 {
 		m.unsupported("symbolic index into empty array")
 	}
+	// index is an ite tree over constants (itself a table lookup): map the leaves
+	if l.Elems != nil && sym.ConstLeaves(idx, 64) {
+		allTerms := true
+		for _, e := range l.Elems {
+			if _, ok := e.(*sym.Term); !ok {
+				allTerms = false
+				break
+			}
+		}
+		if allTerms {
+			return m.ctx.MapLeaves(idx, func(k *sym.Term) *sym.Term { return l.Elems[k.Int()].(*sym.Term) })
+		}
+	}
 	// restrict to feasible window when large
 	lo, hi := 0, n-1
 	if n > 64 {
